@@ -523,3 +523,171 @@ pub fn run_gffcom(c: &Case) -> Obs {
     }
     o
 }
+
+// ---------------------------------------------------------------------------------------------
+// GTF lines: arbitrary text through Reader::read_line (ONE reused Line), Line::kind, as_comment /
+// as_record, line_bufs() and record_bufs() (each next() guarded: the owning conversion panics on
+// a malformed attribute column).  Compared with NV.Text.GtfLine.
+//   obs = L=<lazy lines>|O=<owned lines>|B=<record_bufs records>
+
+fn gtf_lazy_str(rec: &gtf::Record) -> String {
+    match rec.attributes() {
+        Err(e) => {
+            let head = [
+                hex(rec.reference_sequence_name()),
+                hex(rec.source()),
+                hex(rec.ty()),
+                res_str(rec.start(), |p| usize::from(p).to_string()),
+                res_str(rec.end(), |p| usize::from(p).to_string()),
+                match rec.score() {
+                    None => ".".into(),
+                    Some(r) => res_str(r, |f| f.to_bits().to_string()),
+                },
+                res_str(rec.strand(), strand_ch),
+                match rec.phase() {
+                    None => ".".into(),
+                    Some(r) => res_str(r, phase_ch),
+                },
+            ];
+            format!("{}|Err:{}", head.join("|"), errkind(&e))
+        }
+        Ok(_) => canon_feature(rec).0,
+    }
+}
+
+pub fn read_gtf_lines(text: &[u8]) -> GffLines {
+    let limit = text.len() + 2;
+    let mut lazy = Vec::new();
+    {
+        let mut reader = gtf::io::Reader::new(text);
+        let mut line = gtf::Line::default();
+        for _ in 0..limit {
+            match reader.read_line(&mut line) {
+                Ok(0) => break,
+                Ok(_) => lazy.push(acc(|| match line.kind() {
+                    gtf::line::Kind::Comment => format!("C:{}", hex(line.as_comment().expect("comment"))),
+                    gtf::line::Kind::Record => match line.as_record().expect("record") {
+                        Ok(rec) => format!("R:{}", gtf_lazy_str(&rec)),
+                        Err(e) => format!("R:Err:{}", errkind(&e)),
+                    },
+                })),
+                Err(e) => {
+                    lazy.push(format!("Err:{}", errkind(&e)));
+                    break;
+                }
+            }
+        }
+    }
+    let mut owned = Vec::new();
+    {
+        let mut reader = gtf::io::Reader::new(text);
+        let mut it = reader.line_bufs();
+        for _ in 0..limit {
+            match guarded(AssertUnwindSafe(|| it.next())) {
+                Outcome::Panicked(_) => owned.push("R:Panic".to_string()),
+                Outcome::Done(None) => break,
+                Outcome::Done(Some(Ok(gtf::LineBuf::Comment(s)))) => owned.push(format!("C:{}", hex(&s))),
+                Outcome::Done(Some(Ok(gtf::LineBuf::Record(r)))) => owned.push(format!("R:{}", canon_feature(&r).0)),
+                Outcome::Done(Some(Err(e))) => owned.push(format!("R:Err:{}", errkind(&e))),
+            }
+        }
+    }
+    let mut bufs = Vec::new();
+    {
+        let mut reader = gtf::io::Reader::new(text);
+        let mut it = reader.record_bufs();
+        for _ in 0..limit {
+            match guarded(AssertUnwindSafe(|| it.next())) {
+                Outcome::Panicked(_) => bufs.push("Panic".to_string()),
+                Outcome::Done(None) => break,
+                Outcome::Done(Some(Ok(r))) => bufs.push(canon_feature(&r).0),
+                Outcome::Done(Some(Err(e))) => bufs.push(format!("Err:{}", errkind(&e))),
+            }
+        }
+    }
+    GffLines { lazy, owned, bufs }
+}
+
+/// gtfline <hex text>
+pub fn run_gtfline(c: &Case) -> Obs {
+    let text = c.b(0);
+    let g = read_gtf_lines(&text);
+    let obs = format!("L={}|O={}|B={}", joined(&g.lazy), joined(&g.owned), joined(&g.bufs));
+    let o = Obs::ok(obs, true);
+    if g.lazy.len() != g.owned.len() {
+        return o.with_verdict(Err(("gtf-lazy-differs-from-owned".into(), format!("{} lazy lines, {} owned", g.lazy.len(), g.owned.len()))));
+    }
+    for (a, b) in g.lazy.iter().zip(&g.owned) {
+        // a record with a failing lazy accessor has no owned form (error, or the known panic of
+        // the owning conversion on a malformed attribute column): not a difference
+        if a != b && !(a.starts_with("R:") && a.contains("Err:")) {
+            return o.with_verdict(Err(("gtf-lazy-differs-from-owned".into(), format!("lazy={a} owned={b}"))));
+        }
+    }
+    o
+}
+
+/// gtfcom <hex text>: LineBuf::Comment through Writer::write_line, read back
+pub fn run_gtfcom(c: &Case) -> Obs {
+    let text = c.b(0);
+    let t2 = text.clone();
+    let written = guarded(AssertUnwindSafe(move || -> io::Result<Vec<u8>> {
+        let mut w = gtf::io::Writer::new(Vec::new());
+        w.write_line(&gtf::LineBuf::Comment(BString::from(t2)))?;
+        Ok(w.into_inner())
+    }));
+    let bytes = match written {
+        Outcome::Panicked(m) => return Obs::fail("W=Panic", "gtf-comment-writer-panic", m),
+        Outcome::Done(Err(e)) => return Obs::fail(format!("W=Err:{}", errkind(&e)), "gtf-comment-writer-rejects", errkind(&e)),
+        Outcome::Done(Ok(b)) => b,
+    };
+    let g = read_gtf_lines(&bytes);
+    let obs = format!("W={}|L={}|O={}", hex(&bytes[..bytes.len() - 1]), joined(&g.lazy), joined(&g.owned));
+    let o = Obs::ok(obs, true);
+    if text.contains(&b'\n') || text.ends_with(b"\r") {
+        return Obs { verdict: "skip".into(), nontrivial: false, ..o };
+    }
+    let want = vec![format!("C:{}", hex(&text))];
+    if g.lazy != want || g.owned != want {
+        return o.with_verdict(Err(("gtf-comment-roundtrip".into(), format!("want {want:?} lazy {:?} owned {:?}", g.lazy, g.owned))));
+    }
+    o
+}
+
+pub fn gen_gtfline(rng: &mut Rng) -> Vec<u8> {
+    let mut text = Vec::new();
+    let n = rng.range(1, 6);
+    for li in 0..n {
+        let last = li + 1 == n;
+        match rng.below(10) {
+            0 => text.extend_from_slice(&gen_plain(rng, 0, 3, b" \t\r")),
+            1 => {
+                text.push(b'#');
+                text.extend_from_slice(&gen_plain(rng, 0, 8, b"ab #\t!"));
+            }
+            2 => text.extend_from_slice(&gen_plain(rng, 1, 12, b"ab\t\t.1#")),
+            _ => {
+                let cols: Vec<Vec<u8>> = vec![
+                    gen_plain(rng, 0, 5, b"chr1#"),
+                    gen_plain(rng, 0, 3, b".ab"),
+                    rng.pick(&["gene", "CDS", ""]).as_bytes().to_vec(),
+                    rng.pick(&["1", "0", "18446744073709551615", "x", "7"]).as_bytes().to_vec(),
+                    rng.pick(&["1", "9", "18446744073709551616", ""]).as_bytes().to_vec(),
+                    rng.pick(&[".", ".", "x"]).as_bytes().to_vec(),
+                    rng.pick(&[".", "+", "-", "?", "x"]).as_bytes().to_vec(),
+                    rng.pick(&[".", "0", "1", "2", "3"]).as_bytes().to_vec(),
+                    rng.pick(&["", "gene_id \"g1\";", "a \"1\"; a \"2\"; b \"x\\\"y\";", "a", "a \"1", "a \"1\" b \"2\"", "a \"1\";;", " a \"1\"; "]).as_bytes().to_vec(),
+                ];
+                let k = if rng.chance(1, 6) { rng.range(1, 8) as usize } else { 9 };
+                text.extend_from_slice(&cols[..k].join(&b'\t'));
+            }
+        }
+        match rng.below(8) {
+            0 => text.extend_from_slice(b"\r\n"),
+            1 if last => {}
+            2 if last => text.push(b'\r'),
+            _ => text.push(b'\n'),
+        }
+    }
+    text
+}
